@@ -310,6 +310,12 @@ def shard(seed: int, shard_i: int, n: int, opts: dict) -> dict:
                              "what": "schema generation is not deterministic: the schema of the same validator "
                                      f"changed after {len(hist)} other schema(s) were generated in the same process",
                              "real": out2})
+    # determinism across processes: another interpreter, with other string hashes (hence other set iteration orders),
+    # generates the same schemas
+    batch = [(c, out) for c, out in zip(cases, reals) if "ok" in out and record_like(c["v"])][:int(opts.get("cross", 40))]
+    for c, what in other_process_differs(batch, seed * 101 + shard_i + 1):
+        failures.append({"property": "C10", "case": dict(c, cross=seed * 101 + shard_i + 1), "xd": c["named"], "what": what, "real": None})
+    stats["compared-with-another-process"] += len(batch)
     answers = driver.run_batch(reqs) if reqs else []
     disagreements = []
     for c, real, a in zip(cases, reals, answers):
@@ -383,6 +389,43 @@ def in_subprocess(case: dict) -> bool:
         os.unlink(f.name)
 
 
+def record_like(v: Any) -> bool:
+    """a validator description with a record / map / set inside: where an order could come from a set or dict"""
+    t = json.dumps(v)
+    return any(f'"k": "{k}"' in t for k in ("record", "dictAny", "dataclass", "namedtuple", "typeddict", "map", "set"))
+
+
+def other_process_differs(batch: List[Tuple[dict, dict]], hashseed: int) -> List[Tuple[dict, str]]:
+    """[(case, what)] for the cases whose schema, generated by a fresh interpreter started with PYTHONHASHSEED=hashseed,
+    is not the schema generated here"""
+    import os
+    import subprocess
+    import sys
+    import tempfile
+    if not batch:
+        return []
+    with tempfile.NamedTemporaryFile("w", suffix=".json", delete=False) as f:
+        json.dump([c for c, _ in batch], f)
+    try:
+        env = dict(os.environ, PYTHONHASHSEED=str(hashseed % 4294967295 or 1))
+        p = subprocess.run([sys.executable, "-m", "harness.schema_stream", "--batch", f.name], cwd=VERIF, env=env,
+                           stdout=subprocess.PIPE, stderr=subprocess.DEVNULL, timeout=300)
+        lines = p.stdout.decode().splitlines()
+        if p.returncode != 0 or len(lines) != len(batch):
+            return []           # the worker could not run: nothing is concluded
+        out = []
+        for (c, here), line in zip(batch, lines):
+            there = json.loads(line)
+            if "ok" in there and there["ok"] != here["ok"]:
+                out.append((c, "schema generation is not deterministic: an interpreter started with another string-hash "
+                               f"seed (PYTHONHASHSEED={env['PYTHONHASHSEED']}) generates a different schema for the same validator"))
+        return out
+    except Exception:  # noqa
+        return []
+    finally:
+        os.unlink(f.name)
+
+
 def minimise_history(c: dict, later: List[dict]) -> List[dict]:
     """a short list of later cases after which the schema of `c` changes (each candidate is tried in a
     fresh interpreter, since the state that leaks is the interpreter's)"""
@@ -404,6 +447,12 @@ def minimise_history(c: dict, later: List[dict]) -> List[dict]:
 def replay_case(case: dict) -> List[str]:
     if case.get("history"):
         return history_fails(case)
+    if case.get("cross"):
+        wire.set_classes(case.get("classes", []))
+        unb, out, fails = real_schema(case)
+        if unb or "ok" not in out:
+            return fails if not unb else ["case cannot be built: " + unb]
+        return fails + [w for _, w in other_process_differs([(case, out)], case["cross"])]
     wire.set_classes(case.get("classes", []))
     unb, out, fails = real_schema(case)
     return fails if not unb else ["case cannot be built: " + unb]
@@ -411,5 +460,11 @@ def replay_case(case: dict) -> List[str]:
 
 if __name__ == "__main__":
     import sys
-    for f_ in history_fails(json.load(open(sys.argv[1]))):
-        print(f_)
+    if sys.argv[1] == "--batch":
+        for c_ in json.load(open(sys.argv[2])):
+            wire.set_classes(c_.get("classes", []))
+            unb_, out_, _ = real_schema(c_)
+            print(json.dumps(out_ if not unb_ else {"unbuildable": unb_}))
+    else:
+        for f_ in history_fails(json.load(open(sys.argv[1]))):
+            print(f_)
